@@ -21,6 +21,7 @@ type TextVector struct {
 	Layout string     `json:"layout"`
 	Note   string     `json:"note"`
 	Header string     `json:"header"`
+	Guard  string     `json:"guard"` // "fail": the header's package / import guard does not hold for the file
 }
 
 func (tv *TextVector) Vector() (*Vector, error) {
@@ -41,7 +42,7 @@ func (tv *TextVector) Vector() (*Vector, error) {
 		src = string(b)
 	}
 	return &Vector{ID: tv.ID, Prop: tv.Prop, Class: tv.Class, Metas: tv.Metas, Pat: pat, Plus: plus,
-		Src: src, Layout: tv.Layout, Note: tv.Note, Header: tv.Header}, nil
+		Src: src, Layout: tv.Layout, Note: tv.Note, Header: tv.Header, Guard: tv.Guard}, nil
 }
 
 func cmdTextVec(in, out string) error {
